@@ -225,8 +225,14 @@ class SkippingStoryInsertLoop(StoryInsertLoop):
     skipping = True
     index_var = 'story_index'
 
+    def index_name(self, cx, lp):
+        from .roles import unique_local
+        if 'index_var' not in cx.data:
+            cx.data['index_var'] = unique_local(lp, SInt)
+        return cx.data['index_var']
+
     def idx0(self, cx, lp):
-        return lp.entry.locals[self.index_var].t
+        return lp.entry.locals[self.index_name(cx, lp)].t
 
     def ghost_vars(self, cx):
         d = super().ghost_vars(cx)
@@ -247,7 +253,7 @@ class SkippingStoryInsertLoop(StoryInsertLoop):
         g = lp.st.ghost
         dw = lambda j: z3.Select(g['dw'], j)
         j = z3.Int('j!dw')
-        cur = lp.st.locals[self.index_var]
+        cur = lp.st.locals[self.index_name(cx, lp)]
         out = [('index_var', cur.t == self.idx0(cx, lp) + self.ins(g, k))]
         out.append(('ghost.skipped_iff_duplicate',
                     z3.ForAll([j], Imp(A(0 <= j, j < k),
@@ -392,7 +398,8 @@ class EAStoryDeleteMerge(DeleteStoriesContract):
 # ------------------------------------------------------------------ roStoryReplace / EA REPLACE (stories)
 class ReplaceLoop(StoryInsertLoop):
     def idx0(self, cx, lp):
-        return lp.entry.locals['story_index'].t
+        from .roles import enum_start
+        return enum_start(lp)
 
 
 class ReplaceStoriesContract(CarriedStories, MergeContract):
@@ -659,6 +666,7 @@ class StorySendMerge(MergeContract):
 
 # ------------------------------------------------------------------ roElementAction MOVE (stories)
 from .loops import MoveLoops, CollectSources, RemoveAll, InsertBlock
+from .roles import found_nodes, enum_start, unique_local
 
 
 class MoveContract(MoveLoops, MergeContract):
@@ -679,7 +687,7 @@ class MoveContract(MoveLoops, MergeContract):
         la, lc = ex.loop(0), ex.loop(2)
         if la is None or lc is None or getattr(la, 'broke', False) or getattr(lc, 'broke', False):
             return [('C06.every_named_source_is_processed', z3.BoolVal(False))]
-        Lst = lc.entry.locals[self.list_var]
+        Lst = lc.seq.base
         n = self.move_n(cx)
         el = lambda i: Lst.elem(i).t
         moved = lambda z: self.in_list(lc.st.ghost, Lst, n, z)
@@ -746,8 +754,9 @@ class EAStoryMoveMerge(MoveContract):
                      text(H.find(self.tgt(cx), lit('storyID'))))
 
     def move_target_node(self, cx, lp):
-        v = lp.entry.locals['target_story']
-        return null if isinstance(v, SNone) else v.t
+        # the target lookup (if any) is the only find_child call before the sources are resolved
+        f = found_nodes(lp.entry)
+        return f[0] if len(f) == 1 else null
 
     def ensures(self, cx, ex):
         V0 = self.V0(cx)
